@@ -185,7 +185,7 @@ func (g *gateSched) openAll() {
 
 func init() {
 	checks["C05"] = func(rep *Report, tier string, seed int64) {
-		rep.Rule = "chunked L1 as the store of record: (a) EXHAUSTIVE loss of entries: for n = 0..N chunks (quick N=5, thorough N=6) a value is set, every subset of {metadata, chunk 0..n-1} is removed from the backend, then a get and a get-and-touch are issued, and — from the same torn state — an append or prepend (a read-modify-write) followed by a get and a get-and-touch; additionally an older value of the same key with a different chunk count is set first and random subsets of the NEW entries are removed (old chunks may survive under the new metadata); (b) interleavings at backend-request granularity: two sets of different values (1..3 chunks) on one key through separate connections, optionally over a previous value, with every interleaving of their backend requests for the small sizes and seeded random schedules otherwise, with a concurrent reader in a third of the schedules; oracle: every reply is a miss or the value AND flags of one single set; the invariant of the theorem (every backend entry is the metadata or a whole chunk of one of the sets, by token) is checked on the fake backend after every schedule; (a) is also compared byte for byte with the Lean model; distinct = distinct (chunk count, subset) / (sizes, schedule)"
+		rep.Rule = "chunked L1 as the store of record: (a) EXHAUSTIVE loss of entries: for n = 0..N chunks (quick N=5, thorough N=6) a value is set, every subset of {metadata, chunk 0..n-1} is removed from the backend, then a get and a get-and-touch are issued, and — from the same torn state — an append or prepend (a read-modify-write) followed by a get and a get-and-touch; a multi-key get of 300000/290000/1500/10-byte values read by a client that starts reading 600 ms late; additionally an older value of the same key with a different chunk count is set first and random subsets of the NEW entries are removed (old chunks may survive under the new metadata); (b) interleavings at backend-request granularity: two sets of different values (1..3 chunks) on one key through separate connections, optionally over a previous value, with every interleaving of their backend requests for the small sizes and seeded random schedules otherwise, with a concurrent reader in a third of the schedules; oracle: every reply is a miss or the value AND flags of one single set; the invariant of the theorem (every backend entry is the metadata or a whole chunk of one of the sets, by token) is checked on the fake backend after every schedule; (a) is also compared byte for byte with the Lean model; distinct = distinct (chunk count, subset) / (sizes, schedule)"
 		d := StartDriver()
 		defer d.Close()
 		cfg := StackCfg{Orca: "l1only", Locked: "none", Bits: 0, L1: "chunked"}
@@ -315,6 +315,17 @@ func init() {
 			if enoughDivergences(rep, 3) {
 				rep.Distinct = len(distinct)
 				return
+			}
+		}
+		// (a'') a multi-key get of large values read by a slow client (the handler moves on to the
+		// next key while the earlier value is still being written out)
+		for _, pr := range slowReaderMultiGet(cfg) {
+			rep.Evaluations++
+			rep.Validated++
+			rep.Distribution["slow-reader-multiget"]++
+			distinct["slow-multiget/"+pr.proto] = true
+			if pr.what != "" {
+				rep.Violations = append(rep.Violations, Violation{What: fmt.Sprintf("%s, %s: %s", cfg, pr.proto, pr.what), Signature: "torn-read:slow-multiget", Replay: pr.replay})
 			}
 		}
 		// (b) interleavings of two writers (and a reader) at backend-request granularity
